@@ -928,6 +928,26 @@ void cyclic_steps_only(std::string const &kind, unsigned pad_lo, unsigned len, u
     vf::note_distinct(vf::hash_mix(vf::hash_str(e), ((len * 16 + pad_lo) * 16 + pad_hi) * 16 + start));
     typename cyc::boundary const bd{first, second};
     cyc const origin(std::next(first, start), bd);
+    // equality of two cyclic iterators over the same boundary: equal exactly when they denote the same element - in
+    // particular against an iterator that lies BEFORE this one (the full-cycle loop  do ++it; while (it != start);)
+    for (unsigned other = 0; other < len; ++other)
+    {
+      cyc const o(std::next(first, other), bd);
+      VF_COUNT("cyclic/equality-comparisons");
+      if ((origin == o) != (other == start) || (origin != o) == (other == start))
+        vf::violation(e + "/equality", "mismatch", "positions " + std::to_string(start) + " and " + std::to_string(other) + " of " + std::to_string(len));
+    }
+    {
+      cyc it(origin);
+      unsigned laps = 0;
+      do
+      {
+        ++it;
+        ++laps;
+      } while (it != origin && laps <= len + 2);
+      if (laps != len)
+        vf::violation(e + "/full-cycle-loop", "mismatch", "the loop do ++it; while (it != start); ran " + std::to_string(laps) + " steps over " + std::to_string(len) + " elements");
+    }
     for (int dir = 1; dir >= (backward ? -1 : 1); dir -= 2)
     {
       cyc a(origin);
